@@ -536,11 +536,25 @@ def job_inplace_history(job):
                             got = ('raise', type(e).__name__)
                         try:
                             fresh = make_algebra(cfg)
-                            bcur = list(bv) if backing == 'list' else [v + 2.0 for v in bv]
-                            exp = ('value', tod(run(fresh, mv_from(fresh, ak_, list(cur)), mv_from(fresh, bk, bcur))))
+                            if backing == 'list':
+                                exp = ('value', tod(run(fresh, mv_from(fresh, ak_, list(cur)), mv_from(fresh, bk, list(bv)))))
+                            else:
+                                # fresh operands of the same kind (arrays of the same shape holding the current coefficients): what numpy
+                                # does with e.g. the root of a negative entry is the same on both sides
+                                fa = mv_from(fresh, ak_, [np.array(v, dtype=float).copy() for v in a.values()])
+                                fb = mv_from(fresh, bk, [np.array([v, v + 2.0]) for v in bv])
+                                exp = ('value', tod(run(fresh, fa, fb), 1))
                         except Exception as e:
                             exp = ('raise', type(e).__name__)
-                    ok = got[0] == exp[0] and (got[0] == 'raise' or _eqtol(got[1], exp[1]))
+
+                    def same_(A_, B_):
+                        if _eqtol(A_, B_):
+                            return True
+                        try:        # nan on both sides at the same blades counts as equal
+                            return set(A_) == set(B_) and all((A_[k] != A_[k] and B_[k] != B_[k]) or _eqtol({0: A_[k]}, {0: B_[k]}) for k in A_)
+                        except Exception:
+                            return False
+                    ok = got[0] == exp[0] and (got[0] == 'raise' or same_(got[1], exp[1]))
                     if not ok:
                         percat[name] = percat.get(name, 0) + 1
                         if percat[name] <= 3:
